@@ -121,6 +121,44 @@ namespace {
          "C02.t2tot2.change_basis", "change_basis(C,r)*change_basis(a,r) = change_basis(C*a,r)");
   }
 
+  /*!
+   * det(t2tot2) (T2toT2Concept.hxx: "the determinant of a t2tot2") = determinant
+   * of the matrix of the linear map in the (orthonormal) tensor basis.  Same LU
+   * code path as det(st2tost2): classes forcing row exchanges are generated.
+   */
+  template <unsigned short N, typename T>
+  void determinant(verif::Case& c) {
+    using C4 = t2tot2<N, T>;
+    const int n = f4::dimOf(N, NS);
+    const bool flt = std::is_same_v<T, float>;
+    const double sc = gen::scale(c, flt ? 3 : 15);
+    const ref::Vec g = pivotMatrix(c, n);
+    C4 C;
+    for (int I = 0; I < n; ++I)
+      for (int J = 0; J < n; ++J)
+        C(I, J) = static_cast<T>(R(sc) * g[static_cast<std::size_t>(I * n + J)]);
+    ref::Vec m(static_cast<std::size_t>(n * n));
+    for (int I = 0; I < n; ++I)
+      for (int J = 0; J < n; ++J) m[static_cast<std::size_t>(I * n + J)] = C(I, J);
+    const bool exch = N >= 2 && luExchangesRows(n, m, U<T>());
+    c.tag(exch ? "pivot.row_exchange" : "pivot.no_row_exchange");
+    c.nontrivial(N >= 2);
+    const R u = U<T>();
+    const R d = ref::detN(n, m);
+    R bound = 1;  // Hadamard bound: product of the row norms
+    for (int I = 0; I < n; ++I) {
+      R rn = 0;
+      for (int J = 0; J < n; ++J)
+        rn += m[static_cast<std::size_t>(I * n + J)] * m[static_cast<std::size_t>(I * n + J)];
+      bound *= std::sqrt(rn);
+    }
+    if (!(bound < static_cast<R>(std::numeric_limits<T>::max()) * 1e-3L &&
+          bound > static_cast<R>(std::numeric_limits<T>::min()) * 1e6L))
+      return;
+    c.close(det(C), d, 4096 * u * bound,
+            exch ? "C02.t2tot2.det.row_exchange" : "C02.t2tot2.det", "det(C)");
+  }
+
 }  // namespace
 
 #define C02_INST(NAME, FCT)                          \
@@ -132,5 +170,6 @@ namespace {
 C02_INST(projectors, projectors)
 C02_INST(products, products)
 C02_INST(basis, basis)
+C02_INST(determinant, determinant)
 
 VERIF_MAIN("C02_t2tot2")
